@@ -65,7 +65,7 @@ def _norecv(hook):
 
 def _table(prog, f, cls, self_name="self"):
     from ..pathtable import PathTable
-    return PathTable(prog, f.module, call_hook=_norecv(pkg_call_hook(prog, f.module, cls, self_name=self_name))).leaves(f.node.body)
+    return PathTable(prog, f.module, call_hook=_norecv(pkg_call_hook(prog, f.module, cls, self_name=self_name)), unroll=True, scope=f).leaves(f.node.body)
 
 
 def _case(l, rel):
@@ -101,38 +101,40 @@ def _r1(ck: Checker, prog: Program):
     f = cls.methods["_search_range_to_index_range"]
     if f.params[:2] != ["frequency", "search_range_in_hz"]:
         raise AnalysisError(f"{f.qualname}: parameters are {f.params}")
-    leaves = [l for l in _table(prog, f, cls, "HvsrCurve") if l.exit == "return"]
+    from ..pathtable import PathTable, outcomes, same_rel, negate
+    leaves = PathTable(prog, f.module, call_hook=_norecv(pkg_call_hook(prog, f.module, cls, self_name="HvsrCurve")), unroll=True, scope=f).leaves(f.node.body)
     lims = [gi(SR, sp.Integer(0)), gi(SR, sp.Integer(1))]
     dflt = [sp.Integer(0), sp.Function("len")(FRQ)]
     alt_dflt = [[sp.Integer(0)], [sp.Function("len")(FRQ), R("frequency.size"), gi(R("frequency.shape"), sp.Integer(0))]]
+    GIVEN = [sp.Symbol("'<lower limit>'", real=True), sp.Symbol("'<upper limit>'", real=True)]
     problems = {0: [], 1: []}
-    seen = {0: set(), 1: set()}
-    for l in leaves:
-        v = l.value
-        if not isinstance(v, sp.Tuple) or len(v) != 2:
-            problems[0].append(f"returns {v}")
-            continue
-        for k in (0, 1):
-            none = _case(l, sp.Eq(lims[k], NONE, evaluate=False))
-            if none is None:
-                problems[k].append(f"the bound {v[k]} is chosen without testing whether the limit is None (path {l.cond()})")
-            elif none:
-                seen[k].add("none")
-                if v[k] not in alt_dflt[k]:
-                    problems[k].append(f"None -> {v[k]}")
-            else:
-                seen[k].add("given")
-                # the index range [lo, hi) is half-open: the sample nearest to the upper limit may lie inside the range and is then the
-                # right-hand neighbour of the last interior candidate, so the upper bound is one past it
-                nearest = sp.Function("argmin")(sp.Abs(FRQ - lims[k]))
-                if not equal(v[k], nearest + k):
-                    problems[k].append(f"given limit -> {v[k]}")
+    for lo_none in (True, False):
+        for hi_none in (True, False):
+            world = {lims[0]: NONE if lo_none else GIVEN[0], lims[1]: NONE if hi_none else GIVEN[1]}
+            rows = [r for r in outcomes(leaves, world) if r["exit"] == "return"]
+            if not rows:
+                raise AnalysisError(f"{f.qualname}: no returning path for limits {world}")
+            for r in rows:
+                v = r["value"]
+                if not isinstance(v, sp.Tuple) or len(v) != 2:
+                    problems[0].append(f"returns {v}")
+                    continue
+                for k, none in ((0, lo_none), (1, hi_none)):
+                    if none:
+                        if v[k] not in alt_dflt[k]:
+                            problems[k].append(f"None -> {v[k]}")
+                    else:
+                        # the index range [lo, hi) is half-open: the sample nearest to the upper limit may lie inside the range and is
+                        # then the right-hand neighbour of the last interior candidate, so the upper bound is one past it
+                        nearest = sp.Function("argmin")(sp.Abs(FRQ - GIVEN[k]))
+                        if not equal(v[k], nearest + k):
+                            problems[k].append(f"given limit -> {v[k]}")
     for k, name in ((0, "lower"), (1, "upper")):
-        if not problems[k] and seen[k] == {"none", "given"}:
+        if not problems[k]:
             ck.ok("C08.R1", f.qualname, f"{name} index bound: None -> {dflt[k]}; else argmin|frequency - limit|" + (" + 1 (half-open range keeps the nearest sample)" if k else ""))
         else:
             ck.violation("C08.R1", f.qualname, f"{name} index bound",
-                         f"index bound for the {name} limit: {'; '.join(problems[k]) or 'cases ' + str(sorted(seen[k]))}; expected `{dflt[k]}` only when the limit is None and "
+                         f"index bound for the {name} limit: {'; '.join(sorted(set(problems[k]))[:3])}; expected `{dflt[k]}` only when the limit is None and "
                          f"argmin|frequency - limit|{' + 1' if k else ''} otherwise (a limit of 0 is a limit"
                          + ("; the slice [lo:hi] is half-open, so stopping at the nearest sample drops it: a range reaching to or beyond the end of the grid "
                             "loses the last sample and the local maximum next to it" if k else "") + ")", loc=f.loc())
@@ -150,50 +152,83 @@ def _r1(ck: Checker, prog: Program):
         ck.violation("C08.R1", f.qualname, "bounded search",
                      f"frequency and amplitude are not cut with the same index bounds of the requested range and searched together (returns {got}; expected {call})",
                      loc=f.loc())
-    # ---- unbounded
+    # ---- unbounded: a table over (find_peaks arguments None / given) x (candidates found / none)
     f = cls.methods["_find_peak_unbounded"]
-    fp = [c for c in calls_in(f.node, "find_peaks")]
-    good = len(fp) == 1 and fp[0].args and unparse(fp[0].args[0]) == f.params[1] and any(k.arg is None and unparse(k.value) == "find_peaks_kwargs" for k in fp[0].keywords)
-    if good:
-        ck.ok("C08.R1", f.qualname, norm_key(fp[0]), detail="candidates = find_peaks(amplitude, **find_peaks_kwargs)")
+    if f.params[:3] != ["frequency", "amplitude", "find_peaks_kwargs"]:
+        raise AnalysisError(f"{f.qualname}: parameters are {f.params}")
+    base_hook = _norecv(pkg_call_hook(prog, f.module, cls, self_name="HvsrCurve"))
+
+    def fp_hook(call, T):
+        if isinstance(call.func, ast.Name) and call.func.id == "find_peaks":
+            star = [k.value for k in call.keywords if k.arg is None]
+            named = sorted(k.arg for k in call.keywords if k.arg)
+            return sp.Function("find_peaks")(*[T.tr(a_) for a_ in call.args], *[sp.Function("kwsplat")(T.tr(v_)) for v_ in star], *[sp.Function("kw_" + n_)(sp.Symbol("<value>")) for n_ in named])
+        return base_hook(call, T)
+    leaves = PathTable(prog, f.module, call_hook=fp_hook, unroll=True, scope=f).leaves(f.node.body)
+    GKW = sp.Symbol("'<find_peaks arguments>'", real=True)
+    bad = []
+    ok_none = ok_pair = fp_ok = True
+    n_rows = 0
+    for kw_none in (True, False):
+        world = {KW: NONE if kw_none else GKW}
+        Cs = sp.Function("find_peaks")(AMP, sp.Function("kwsplat")(GKW)) if not kw_none else sp.Function("find_peaks")(AMP)
+        C = gi(Cs, sp.Integer(0))
+        sub = sp.Function("argmax")(gi(AMP, C))
+        want_pair = sp.Tuple(gi(FRQ, gi(C, sub)), gi(AMP, gi(C, sub)))
+        LEN, SIZE = sp.Function("len")(C), sp.Function("attr_size")(C)
+        truth = sp.Function("truth")
+        empty_forms = [(sp.Eq(X, 0, evaluate=False), True) for X in (LEN, SIZE)] + [(sp.Gt(X, 0, evaluate=False), False) for X in (LEN, SIZE)] + \
+            [(sp.Ge(X, 1, evaluate=False), False) for X in (LEN, SIZE)] + [(sp.Eq(truth(X), sp.true, evaluate=False), False) for X in (LEN, SIZE)]
+        rows = [r for r in outcomes(leaves, world) if r["exit"] == "return"]
+        if not rows:
+            raise AnalysisError(f"{f.qualname}: no returning path")
+        rows = [dict(r, value=_drop_empty_splat(r["value"]), conds=[_drop_empty_splat(c) for c in r["conds"]]) for r in rows]
+        calls = {a_ for r in rows for x in [r["value"]] + r["conds"] for a_ in sp.preorder_traversal(sp.sympify(x)) if getattr(getattr(a_, "func", None), "__name__", "") == "find_peaks"}
+        if calls != {Cs}:
+            fp_ok = False
+        for r in rows:
+            n_rows += 1
+            empty = None
+            for rel, means_empty in empty_forms:
+                for x in r["conds"]:
+                    if same_rel(x, rel):
+                        empty = means_empty
+                    elif same_rel(x, negate(rel)):
+                        empty = not means_empty
+            v = r["value"]
+            if empty is None:
+                bad.append(f"returns {v} without testing whether there are candidates")
+                ok_none = False
+            elif empty:
+                if v != sp.Tuple(NONE, NONE):
+                    bad.append(f"no candidates -> {v}")
+                    ok_none = False
+            else:
+                if not (isinstance(v, sp.Tuple) and len(v) == 2 and all(equal(x, y) for x, y in zip(v, want_pair))):
+                    bad.append(f"candidates -> {v}")
+                    ok_pair = False
+    if fp_ok:
+        ck.ok("C08.R1", f.qualname, "candidates = find_peaks(amplitude, **find_peaks_kwargs)", detail="an absent argument dict means no arguments")
     else:
         ck.violation("C08.R1", f.qualname, "find_peaks call", "candidates are not find_peaks(amplitude, **find_peaks_kwargs)", loc=f.loc())
-    leaves = [l for l in _table(prog, f, cls, "HvsrCurve") if l.exit == "return"]
-    C = gi(sp.Function("find_peaks")(AMP), sp.Integer(0))
-    empties = [sp.Eq(sp.Function("len")(C), 0, evaluate=False), sp.Eq(sp.Function("attr_size")(C), 0, evaluate=False),
-               sp.Ne(sp.Function("truth")(sp.Function("len")(C)), sp.true, evaluate=False), sp.Ne(sp.Function("truth")(sp.Function("attr_size")(C)), sp.true, evaluate=False)]
-    sub = sp.Function("argmax")(gi(AMP, C))
-    want_pair = sp.Tuple(gi(FRQ, gi(C, sub)), gi(AMP, gi(C, sub)))
-    ok_none = ok_pair = False
-    bad = []
-    for l in leaves:
-        empty = None
-        for e in empties:
-            c = _case(l, e)
-            if c is not None:
-                empty = c
-        if empty is None:
-            bad.append(f"returns {l.value} without testing whether there are candidates")
-        elif empty:
-            if l.value == sp.Tuple(NONE, NONE):
-                ok_none = True
-            else:
-                bad.append(f"no candidates -> {l.value}")
-        else:
-            if isinstance(l.value, sp.Tuple) and len(l.value) == 2 and all(equal(x, y) for x, y in zip(l.value, want_pair)):
-                ok_pair = True
-            else:
-                bad.append(f"candidates -> {l.value}")
-    if ok_none and not [b for b in bad if "no candidates" in b or "without testing" in b]:
+    if ok_none:
         ck.ok("C08.R1", f.qualname, "(None, None) exactly when find_peaks yields no candidates", detail="absent iff no candidates")
     else:
-        ck.violation("C08.R1", f.qualname, "no-candidate case", f"(None, None) is not returned exactly when find_peaks yields no candidates ({'; '.join(bad)})", loc=f.loc())
-    if ok_pair and not [b for b in bad if b.startswith("candidates")]:
+        ck.violation("C08.R1", f.qualname, "no-candidate case", f"(None, None) is not returned exactly when find_peaks yields no candidates ({'; '.join(sorted(set(bad))[:3])})", loc=f.loc())
+    if ok_pair:
         ck.ok("C08.R1", f.qualname, "(frequency[i*], amplitude[i*]) with i* = candidates[argmax(amplitude[candidates])]")
     else:
         ck.violation("C08.R1", f.qualname, "reported pair",
-                     f"the reported pair is not frequency and amplitude at the same candidate index chosen by argmax of the candidate amplitudes ({'; '.join(bad)})",
+                     f"the reported pair is not frequency and amplitude at the same candidate index chosen by argmax of the candidate amplitudes ({'; '.join(sorted(set(bad))[:3])})",
                      loc=f.loc())
+
+
+def _drop_empty_splat(e):
+    """find_peaks(x, **{}) is find_peaks(x)."""
+    from ..pathtable import rewrite
+    fnm = lambda x: getattr(getattr(x, "func", None), "__name__", "")   # noqa: E731
+    return rewrite(e, lambda x: fnm(x) == "find_peaks" and any(fnm(a_) == "kwsplat" and a_.args[0] == sp.Function("dict")() for a_ in x.args),
+                   lambda x: x.func(*[a_ for a_ in x.args if not (fnm(a_) == "kwsplat" and a_.args[0] == sp.Function("dict")())]))
 
 
 def _r2(ck: Checker, prog: Program):
